@@ -105,6 +105,12 @@ def check(prog, run):
     run.rule("R-orient", "no factor / sensitivity block is transposed on the strength of ONE of its extents (a square array that is already the right way round would be turned)", 0)
     raw_ = prog.raw
     astq.orientation_guess_rule(raw_, run, "R-orient", sorted(q_ for q_ in raw_.reachable([raw_.func(x_).qual for x_ in ("functions.ssi.build_hank", "functions.ssi.SSI_fast", "functions.ssi.SSI_poles")]) if q_ in raw_.functions))
+    run.rule("R-stateless", "the propagation changes no module-level table and no memoised value in place (selection / commutation matrices kept by a cache): the variances "
+             "of one call do not depend on the calls made before it", 3)
+    from ..effects import shared_state_rule
+    reach_ = sorted(q_ for q_ in prog.reachable([prog.func(x_).qual for x_ in ("functions.ssi.build_hank", "functions.ssi.SSI_fast", "functions.ssi.SSI_poles")])
+                    if q_ in prog.functions and not q_.startswith("pyoma2.functions.plot"))
+    shared_state_rule(prog, run, "R-stateless", reach_, "the variances returned depend on the calls made before (the cached matrix was changed by an earlier call)")
     from . import C01
     C01.eigvec_rule(prog, run)          # the sensitivities use (left, right) eigenvectors by position
     run.rule("R-vec-order", "vectorisation order of the factor columns (producer) = order expected by the Kronecker forms of the propagation (consumer)", 3)
@@ -275,8 +281,18 @@ def producer(prog, run):
     resh = [c for c in ast.walk(x) if isinstance(c, ast.Call) and isinstance(c.func, ast.Attribute) and c.func.attr in ("reshape", "flatten", "ravel")]
     # only vectorisations of rank-2 values matter: reshape(-1, 1) / flatten of a matrix; flatten of an (n,1) column is order independent
     orders = []
+    def _to_vector(c):
+        """reshape(-1, 1) / reshape(-1) / reshape(1, -1) / reshape((-1, 1)): everything into one column or row - a vectorisation; a reshape to
+        another shape (gathers, strips of blocks) re-arranges data that is not vec(H)"""
+        a_ = list(c.args)
+        if len(a_) == 1 and isinstance(a_[0], (ast.Tuple, ast.List)):
+            a_ = list(a_[0].elts)
+        vals = [x.value if isinstance(x, ast.Constant) else (-x.operand.value if isinstance(x, ast.UnaryOp) and isinstance(x.op, ast.USub) and isinstance(x.operand, ast.Constant) else None) for x in a_]
+        return bool(vals) and vals.count(-1) == 1 and all(v in (-1, 1) for v in vals)
     for c in resh:
         if c.func.attr == "reshape":
+            if not _to_vector(c):
+                continue
             orders.append((order_of(c), c))
         else:
             inner = c.func.value
